@@ -75,6 +75,14 @@ pub fn bits_w<W: VInt>(case: &Value, mode: &str, rep: &mut Report) {
                     if g!("len", k2.len()) != content.len() { bad(rep, format!("re-imported coder reports len {} for {} bits", k2.len(), content.len())); } }
                 Err(_) => bad(rep, format!("from_compressed refused {:?} produced by into_compressed", words)),
             }
+            // words WITHOUT the terminating 1 bit (a zero last word) are not importable (BitCoder.tla: CanImport): documented Err
+            for mut wz in [words.clone(), { let mut v = words.clone(); v.push(W::zero()); v }] {
+                if let Some(l) = wz.last_mut() { *l = W::zero(); }
+                if wz.is_empty() { continue; }
+                rep.checks += 1;
+                if g!("from_compressed", StackCoder::<W, Vec<W>>::from_compressed(wz.clone())).is_ok() { bad(rep, format!("from_compressed accepted {:?}, whose last word is zero (no terminating 1 bit)", wz)); }
+                rep.class("stack_import_without_terminator");
+            }
             // queue: same bits in FIFO order
             let mut q = QueueEncoder::<W, Vec<W>>::new();
             for b in &content { g!("queue write_bit", q.write_bit(*b != 0).unwrap()); }
